@@ -17,6 +17,14 @@ CLAIMED = {
    ref="DESIGN.md section 5, C20"),
 }
 
+CLAIMED['C15'] = dict(
+   text="Unbounded proof over an uninterpreted file system (realpath/join/exists/isfile/content as functions of the "
+        "path string; realpath idempotent and normalised) that in strict mode the path handed to open() has a real "
+        "path equal to or below the real path of the directory, for every requested name incl. the implicit "
+        ".tex/.latex completion; plus: nothing opened => '', content returned unchanged, inside names are read.",
+   ref="DESIGN.md section 5, C15",
+   note=NOTE + "; A-FS: file system constant during one call (no TOCTOU claim)")
+
 NA = {
 }
 DEFAULT_NA = "check not built yet (work in progress; see DESIGN.md section 5 for the planned contracts)"
